@@ -31,7 +31,7 @@ Proof. exact exec_program_inv. Qed.
 
 (** the message of every runtime error renders: [rt_error_display] is a total function *)
 Theorem C09_runtime_error_renders : forall e : rt_error, exists txt, rt_error_display e = txt.
-Proof. intro e. eexists. reflexivity. Qed.
+Proof. exact runtime_error_renders. Qed.
 
 (** Non-vacuity: ill-typed programs that used to crash the real interpreter are runtime errors of
     the model: a function name used as a write target, a radix of 1, break at top level twice. *)
